@@ -1,5 +1,6 @@
 import Nstd.Life.LemmasAll
 import Nstd.Life.LemmasAlias
+import Nstd.Life.LemmasOps
 /-
   Property theorems of the Life area.
 
@@ -23,20 +24,21 @@ namespace Nstd.Life
     is a live object, objects are constructed only inside allocated blocks, no block id is allocated twice,
     a block is freed only while allocated and with no live object inside, and at the end nothing is live
     and no block is allocated (no leak, no double free, no use after destruction). -/
-theorem lifecycle_ok (ops : List Op) (st' : State) (hd : execAll (run init ops) destroyAll = some st') :
-    WellFormed st'.log := by
+theorem lifecycle_ok (ops : List Op) :
+    ∃ st', execAll (run init ops) destroyAll = some st' ∧ WellFormed st'.log := by
+  obtain ⟨st', hd⟩ := Ops.finish_defined ops
   obtain ⟨i1, t1⟩ := reach_ok ops
   obtain ⟨i2, t2⟩ := execAll_ok i1 destroyAll hd
   obtain ⟨hn, ha⟩ := destroyAll_effect i1 hd
-  exact ⟨chkOf st', trace_from_empty (t1.trans t2), clean_of_empty i2 hn ha⟩
+  exact ⟨st', hd, chkOf st', trace_from_empty (t1.trans t2), clean_of_empty i2 hn ha⟩
 
 /-- C04, prefix form: at every point of every history the log so far is accepted by the checker
     (so no misuse has happened yet), whether or not the destructors follow. -/
 theorem lifecycle_prefix_ok (ops : List Op) : ∃ c, Chk.init.run (run init ops).log = some c :=
   ⟨_, trace_from_empty (reach_ok ops).2⟩
 
-/-- non-vacuity of `lifecycle_ok`: a history with alias operations on several containers for which the
-    destructors are defined (the hypothesis `hd` is met), and whose log is therefore well-formed -/
+/-- a concrete history with alias operations on several containers (evaluated by the kernel): the destructors
+    are defined for it, as `lifecycle_ok` says for every history -/
 def sampleOps : List Op :=
   [.lInsert 0 none 1, .lInsert 0 none 2, .lInsertList 0 (some 1) 0, .assign ⟨.L, 0⟩ 0, .copy ⟨.L, 1⟩ 0,
    .aAppend 0 5, .aAppend 0 6, .aAppend 0 7, .aAppend 0 8, .aAppendRef 0 0, .aResizeRef 0 9 1, .aAppendArr 0 0,
@@ -59,6 +61,27 @@ theorem copy_fresh_arr (ops : List Op) (a a' s : Nat)
     (h1 : ((run init ops).arrs a).store = some s) (h2 : ((run init ops).arrs a').store = some s) : a = a' := by
   have := (reach_ok ops).1.own_unique (.arr a) (.arr a') s h1 h2
   cases this; rfl
+
+/-- C04 `copy_independent`.  In every reachable state, an operation leaves every container it does not
+    target exactly as it was - same slots, same abstract value (payloads of all keys and values): so after
+    `b = a` / `B b(a)` / `b.insert(a)` / `b.append(a)`, whatever is later done to one of the two (insert, remove,
+    overwrite, clear, destruction, self-referential operations ...) is invisible in the other.
+    (`Op.nodeTargets op` = the variables the operation may modify: `copy c w`, `assign c w`, `insertList v p w`,
+    `insertMap c w`, `appendSet v w`, `removeSet v w` target only the destination; swap targets both.) -/
+theorem copy_independent (ops : List Op) (op : Op) (c : Var) (hc : c ∉ op.nodeTargets) :
+    (step (run init ops) op).nodes c = (run init ops).nodes c ∧
+      absNode (step (run init ops) op) c = absNode (run init ops) c :=
+  Ops.step_frame_node ops op c hc
+
+theorem copy_independent_arr (ops : List Op) (op : Op) (a : Nat) (ha : a ∉ op.arrTargets) :
+    (step (run init ops) op).arrs a = (run init ops).arrs a ∧
+      absArr (step (run init ops) op) a = absArr (run init ops) a :=
+  Ops.step_frame_arr ops op a ha
+
+/- OPEN (not proved; covered by the correspondence run and the Python reference only):
+   `copy_equal : absNode (step st (.copy c w)) c = absNode st ⟨c.k, w⟩` (and for `assign`, arrays) for every
+   reachable st - i.e. that a copy has the same contents as its source right after the copy.  For Map / HashMap
+   / HashSet this needs the key-uniqueness and ordering invariants that are the subject of C01/C02. -/
 
 -- C04: self arguments behave as if copied first ------------------------------------------------------------------
 
